@@ -78,6 +78,9 @@ func cmdConcRace(args []string) error {
 				qs = append(qs, &histQuery{kind: kind, host: "static.site.com", url: "http://static.site.com/k1/k2/k3/x.js", src: "https://" + src + "/", typ: rules.TypeScript})
 			}
 		}
+		// the first question about cosmetic rules, asked while the network rules of the cold engine are being looked up
+		cosQ := &histQuery{kind: "cos", host: "sub.example.org", opt: 7}
+		qs = append(qs, cosQ)
 		work := make([]*histQuery, 0, 400)
 		for i := 0; i < 400; i++ {
 			work = append(work, qs[rnd.Intn(len(qs))])
@@ -114,9 +117,13 @@ func cmdConcRace(args []string) error {
 			go func(w int) {
 				defer wg.Done()
 				<-startBurst
-				a, _, _, pv := eng.run(burst)
-				if pv != "" || a != want[burst.key()] {
-					bads[w] = append(bads[w], bad{burst.key(), a, want[burst.key()]})
+				bq := burst
+				if w == 0 {
+					bq = cosQ
+				}
+				a, _, _, pv := eng.run(bq)
+				if pv != "" || a != want[bq.key()] {
+					bads[w] = append(bads[w], bad{bq.key(), a, want[bq.key()]})
 				}
 			}(w)
 		}
